@@ -1,6 +1,7 @@
 import Driver.Proto
 import GMModel.Metropolis
 import GMModel.Align
+import GMModel.AlignFull
 /-
   Driver.Metropolis — ops for `_backend.py` (`accept_metropolis`, the search loop; C09) and
   `_alignment.py` (`align_molecules`; C06).
@@ -122,6 +123,15 @@ def optInts : Rd (Option (List Int)) := do
     let l ← ints
     pure (some l)
 
+/-- `-1` = `None`, else a restraint list -/
+def optRestr : Rd (Option (List (Int × Int))) := do
+  let flag ← Rd.int
+  if flag < 0 then pure none else
+    let l ← restrList
+    pure (some l)
+
+def layout : Rd ResLayout := Rd.listOf (do let n ← Rd.str; let k ← Rd.nat; pure (n, k))
+
 def wrestr (l : List (Int × Int)) : String := Wr.list (fun r => s!"{r.1} {r.2}") l
 def wints (l : List Int) : String := Wr.list (fun i => toString i) l
 def wbinfo (t : BondsInfo Float) : String :=
@@ -196,6 +206,48 @@ def handle : Handler
       match alignMolecules chi2Of moveOf sf sigma s e restr deform ign tp with
       | .error err => pure s!"err {alignErrName err}"
       | .ok (s', e', rest) => pure s!"ok {wcfg s'.pos} {wcfg e'.pos} {rest.length}"
+  /- align_plan_g stepsFactor <start> <end> <layout start> <layout end> <restr|None> <deform|None> ignoreH autoGuess
+       → as align_plan (the `restrictions=None` path included) -/
+  | "align_plan_g" => some do
+      let sf ← Rd.nat; let s ← mol; let e ← mol; let ls ← layout; let le ← layout; let restr ← optRestr
+      let deform ← optInts; let ign ← Rd.bool; let ag ← Rd.bool; Rd.done
+      match alignPrepareG sf s e ls le restr deform ign ag with
+      | .error err => pure s!"err {alignErrName err}"
+      | .ok (.early s') => pure s!"ok early {wcfg s'.pos}"
+      | .ok (.plan p) => pure s!"ok {planOut p}"
+  /- align_run_g stepsFactor sigma <start> <end> <layouts> <restr|None> <deform|None> ignoreH autoGuess <tape> <moves> <chi2 table>
+       → ok <start pos> <end pos> leftover -/
+  | "align_run_g" => some do
+      let sf ← Rd.nat; let sigma ← Rd.float; let s ← mol; let e ← mol; let ls ← layout; let le ← layout
+      let restr ← optRestr; let deform ← optInts; let ign ← Rd.bool; let ag ← Rd.bool; let tp ← tape
+      let moves ← Rd.listOf moveEntry; let chis ← Rd.listOf chi2Entry; Rd.done
+      let chi2Of := fun (_ : List (V3 Float)) (_ : Cfg) (_ : List (Int × Int)) => chi2Table chis.toArray
+      let moveOf := fun (_ : BondsInfo Float) (_ : Float) => moveTable moves.toArray
+      match alignMoleculesG chi2Of moveOf sf sigma s e ls le restr deform ign ag tp with
+      | .error err => pure s!"err {alignErrName err}"
+      | .ok (s', e', rest) => pure s!"ok {wcfg s'.pos} {wcfg e'.pos} {rest.length}"
+  /- guess_restr <layout start> <layout end> autoGuess → ok <restr> | err cannotGuess -/
+  | "guess_restr" => some do
+      let ls ← layout; let le ← layout; let ag ← Rd.bool; Rd.done
+      match guessRestrictions ls le ag with
+      | .error _ => pure "err cannotGuess"
+      | .ok r => pure s!"ok {wrestr r}"
+  /- mc_wrap installed <held0> nsteps <simtype> <tape> <moves> <chi2 table>
+       → ok <warnings> <viaCompiled> (R <returned> leftover | X <error>) : the PUBLIC wrapper `minimize_molecules` -/
+  | "mc_wrap" => some do
+      let installed ← Rd.bool
+      let held0 ← cfg; let nSteps ← Rd.nat; let simType ← ints; let tp ← tape
+      let moves ← Rd.listOf moveEntry; let chis ← Rd.listOf chi2Entry; Rd.done
+      let out := minimizeMolecules installed (fun _ _ => .error .moveErr)
+        (chi2Table chis.toArray) (moveTable moves.toArray) simType nSteps held0 tp
+      match out.result with
+      | .ok (c, rest) => pure s!"ok {out.warnings} {Wr.bool out.viaCompiled} R {wcfg c} {rest.length}"
+      | .error e => pure s!"ok {out.warnings} {Wr.bool out.viaCompiled} X {errName e}"
+  /- backend_check installed warnMissing → ok <flag> <warnings> -/
+  | "backend_check" => some do
+      let installed ← Rd.bool; let wm ← Rd.bool; Rd.done
+      let r := checkBackendInstalled installed wm
+      pure s!"ok {Wr.bool r.1} {r.2}"
   | _ => none
 
 end DMC
